@@ -18,6 +18,7 @@
 extern "C" {
 int __real_pthread_create(pthread_t *, const pthread_attr_t *, void *(*)(void *), void *);
 int __real_pthread_join(pthread_t, void **);
+void __real_pthread_exit(void *) __attribute__((noreturn));
 int __real_pthread_mutex_init(pthread_mutex_t *, const pthread_mutexattr_t *);
 int __real_pthread_mutex_destroy(pthread_mutex_t *);
 int __real_pthread_mutex_lock(pthread_mutex_t *);
@@ -509,6 +510,25 @@ int __wrap_pthread_join(pthread_t th, void **ret) {
     if (ret) *ret = t.ret;
     yield_point(YP_JOIN);
     return 0;
+}
+
+// A task that leaves through pthread_exit() instead of returning from its start routine.  For a created worker this is an ordinary way to
+// finish (its pooled OS thread goes with it); for the thread that called the library it means the call never returns to its caller.
+void __wrap_pthread_exit(void *ret) {
+    if (!g.active) __real_pthread_exit(ret);
+    if (g.cur == 0) die(END_MONITOR_STOP, "C04|caller_thread_exited|pthread_exit() on the calling thread inside a library call: the routine never returns to its caller");
+    Task &t = *g.pool[g.cur];
+    t.ret = ret; t.st = T_FINISHED; t.has_os = false;
+    ++g.st.tasks_finished;
+    step_account();
+    int nx = choose();
+    if (nx < 0) die(END_DEADLOCK, "all tasks finished but main");
+    run_task(nx);
+    g.cur = nx;
+    ++g.st.switches;
+    pthread_t self = t.os; pthread_detach(self);
+    sem_post(&g.pool[nx]->sem);
+    __real_pthread_exit(ret);
 }
 
 int __wrap_pthread_mutex_init(pthread_mutex_t *m, const pthread_mutexattr_t *a) {
